@@ -5,10 +5,10 @@ from vcheck import Stream, sx_str
 from gen.pools import rand_f32, rand_i32
 
 PROPERTY = "C08"
-PROPS_VO = "Props/C08"
+PROPS_VO = ["Props/C08", "Props/C08i"]
 AXIOMS_OK = []
 ASSUMPTIONS = [
-    "API level (Item::*); instruction level added separately",
+    "API level (Item::*) and instruction level (CODE.* wrappers by NAME)",
     "Item::traverse / Item::insert take a usize depth: negative indices cannot be sent at this level (CODE.EXTRACT / CODE.INSERT normalisation belongs to the instruction level)",
     "Item::insert never replaces the root (index 0 returns Ok(true), left to the caller): the insert equation is claimed for 0 < i < size only",
     "structural equality is Item::equals: float literals compare with IEEE ==, so a NaN literal matches nothing, itself included",
@@ -111,7 +111,7 @@ def case(prof, op, *args):
     return sx_str([prof, [], op] + list(args))
 
 
-def streams(seed, tier):
+def api_streams(seed, tier):
     rng = random.Random(seed)
     out = []
     maxpts = {"quick": 6, "thorough": 7, "search": 6}[tier]
@@ -189,7 +189,7 @@ def streams(seed, tier):
 TECHNIQUE = ("Coq proofs by induction over the nested item type (item_ind' with list-level generalisations carrying the running point counter) that the executable model of Item::{size,traverse,insert,contains,container,substitute} "
              "equals a specification on the preorder point listing (TreeSpec) + exhaustive/random differential correspondence of the model against the real Item::* functions, with the specification itself evaluated on the implementation's outputs")
 DESIGN_REF = "DESIGN.md section 6.C08"
-LEVEL_TEXT = ("API level (Item::*); instruction level added separately. Machine-checked for all code trees (unbounded depth and size, every atom kind), all indices and both build profiles: "
+LEVEL_TEXT = ("API level (Item::*) and instruction level (CODE.* wrappers by NAME). Machine-checked for all code trees (unbounded depth and size, every atom kind), all indices and both build profiles: "
               "size = number of points of the preorder listing (C08_size_is_length_points); traverse at d returns the d-th point and otherwise the remaining count, never underflowing (C08_traverse_spec, C08_traverse_no_underflow); "
               "insert at 0 < i < size equals the structurally defined replace_point, leaves the tree alone beyond the last point, makes a following traverse at i return the inserted item, "
               "keeps every point before i in place (ancestors of i contain the new subtree, all others are unchanged) and shifts the points after the replaced subtree by the size difference with unchanged values "
@@ -200,3 +200,98 @@ LEVEL_TEXT = ("API level (Item::*); instruction level added separately. Machine-
               "and by evaluating the TreeSpec description directly on the implementation's outputs.")
 LEVEL_NOTE = ("Trusted: Coq kernel, extraction (ExtrOcamlBasic), ocaml/driver.ml, the Rust harness and generators; theorems are closed under the global context (parametric in the float comparison). "
               "The model is hand-written: behaviour outside the generated trees is tied only by the proof-to-model link, not to the code. Item::find, shallow == and to_string are covered by the differential run only.")
+
+
+CODE_SURGERY = ["CODE.SIZE", "CODE.EXTRACT", "CODE.INSERT", "CODE.POSITION", "CODE.CONTAINER", "CODE.SUBST", "CODE.CAR", "CODE.CDR", "CODE.CONS",
+                "CODE.LIST", "CODE.LENGTH", "CODE.NTH", "CODE.NULL", "CODE.ATOM", "CODE.MEMBER", "CODE.CONTAINS", "CODE.=", "CODE.DISCREPANCY", "CODE.APPEND"]
+
+
+def instr_streams(seed, tier):
+    """instruction level: the CODE.* wrappers (index normalisation, operand order, what is popped) by NAME"""
+    import vcheck
+    from gen import stepgen
+    from gen.stategen import state, case_run, I, Z, L, N, B
+    rng = random.Random(seed + 17)
+    impl, model = vcheck.registry_names()
+    names = sorted(model)
+    safe = [x for x in names if x not in stepgen.UNSAFE and x not in stepgen.RANDOM and x not in stepgen.ALLOCATING]
+    n = {"quick": 250, "thorough": 3000, "search": 2000}[tier]
+    cases = []
+    for nm in CODE_SURGERY:
+        if nm not in model: continue
+        for k in range(n):
+            st = stepgen.rand_state(rng, names, safe, maxdepth=3)
+            r = rng.random()
+            if r < 0.6:
+                # related operands: the pattern is a sub-item of (or equal to) the target, indices around the size
+                target = stepgen.rand_item(rng, safe, 3, 4)
+                subs = [target]
+                def walk(t):
+                    if isinstance(t, list) and t and t[0] == 0:
+                        for c in t[1:]:
+                            subs.append(c); walk(c)
+                walk(target)
+                pat = rng.choice(subs)
+                sub = stepgen.rand_item(rng, safe, 2, 3)
+                order = rng.choice([[target, pat, sub], [target, sub, pat], [pat, target, sub]])
+                st["code"] = order + st["code"]
+                st["int"] = [rng.randrange(-2 * len(subs) - 2, 2 * len(subs) + 3)] + st["int"]
+            st["exec"] = [I(nm)] + st["exec"]
+            cases.append(case_run(rng.randrange(2), state(**st), 0, 1))
+    return [Stream("code-instructions", "run", "run.check", cases,
+                   "one step of each CODE list-surgery instruction by NAME on random states; in 60% of the cases the CODE operands are related (pattern = a sub-item of the target or the target itself) and the index ranges over [-2S, 2S]")]
+
+
+KNOWN_ARGS = "pair"
+KNOWN_SUITE = {"run": "insext.known", "run#codeeq": "codeeq.known"}
+
+
+def insext_stream(seed, tier):
+    """CODE.INSERT at i then CODE.EXTRACT at i must yield the inserted item (all indices in [-2S, 2S])"""
+    from gen import stepgen
+    from gen.stategen import state, case_run, I, Z, L, N
+    rng = random.Random(seed + 29)
+    names = ["NOOP", "INTEGER.+", "CODE.DUP"]
+    cases = []
+    n = {"quick": 60, "thorough": 600, "search": 400}[tier]
+    for _ in range(n):
+        t = stepgen.rand_item(rng, names, 3, 4)
+        x = stepgen.rand_item(rng, names, 2, 3)
+        S = 1
+        def sz(u):
+            return 1 + sum(sz(c) for c in u[1:]) if (isinstance(u, list) and u and u[0] == 0) else 1
+        S = sz(t)
+        for i in range(-2 * S, 2 * S + 1):
+            cases.append(case_run(rng.randrange(2), state(exec=[Z(i), I("CODE.INSERT"), Z(i), I("CODE.EXTRACT")], code=[t, x]), 0, 4))
+    return [Stream("insert-then-extract", "run", "insext.check", cases,
+                   "random target trees (size S) x every index in [-2S, 2S]: ( i CODE.INSERT i CODE.EXTRACT ) must leave the inserted item on top of CODE")]
+
+
+def codeeq_stream(seed, tier):
+    """CODE.= / EXEC.= against structural equality"""
+    from gen import stepgen
+    from gen.stategen import state, case_run, I, Z, L, N, F, B
+    from gen.pools import fbits
+    rng = random.Random(seed + 31)
+    names = ["NOOP", "INTEGER.+", "TRUE"]
+    n = {"quick": 400, "thorough": 5000, "search": 3000}[tier]
+    cases = []
+    special = [(F(fbits(1.0)), F(fbits(1.0004))), (F(0x7fc00000), F(0x7fc00000)), (N("TRUE"), B(True)), (N("12"), Z(12)), (I("NOOP"), N("NOOP")),
+               (L(Z(1), Z(2)), L(Z(1), Z(2))), (L(), L()), (F(0), F(0x80000000)), (L(N("a b")), L(N("a"), N("b")))]
+    for k in range(n):
+        if k < len(special) * 2:
+            a, b = special[k // 2]
+        else:
+            a = stepgen.rand_item(rng, names, 3, 3)
+            b = a if rng.random() < 0.4 else stepgen.rand_item(rng, names, 3, 3)
+        if k % 2 == 0:
+            cases.append(case_run(rng.randrange(2), state(exec=[I("CODE.=")], code=[b, a]), 0, 1))
+        else:
+            cases.append(case_run(rng.randrange(2), state(exec=[I("EXEC.="), b, a]), 0, 1))
+    st = Stream("code-equality", "run", "codeeq.check", cases, "CODE.= and EXEC.= on equal / unequal / text-colliding item pairs: result vs structural equality")
+    st.known_suite = "codeeq.known"
+    return [st]
+
+
+def streams(seed, tier):
+    return api_streams(seed, tier) + instr_streams(seed, tier) + insext_stream(seed, tier) + codeeq_stream(seed, tier)
